@@ -2,10 +2,15 @@ package main
 
 import (
 	"context"
+	"go/types"
 	"os"
 	"path/filepath"
+	"sort"
 	"strings"
 	"sync"
+
+	"golang.org/x/tools/go/packages"
+	"golang.org/x/tools/go/ssa"
 )
 
 // Vacuity guard per obligation site (run after solving): an `ensures` or `assert before call` obligation
@@ -86,3 +91,77 @@ func itoa(i int) string {
 }
 
 var _ = strings.TrimSpace
+
+// unmatchedContracts lists the contract blocks ("pkg.key") that attach to nothing: no function, method or
+// function literal of the package has that key, and it does not name a method of an interface type
+// visible from the package.
+func (x *Exec) unmatchedContracts(pkgs []*packages.Package, funcs map[string]*ssa.Function) []string {
+	have := map[string]map[string]bool{} // package path -> function keys
+	for _, fn := range funcs {
+		f := fn
+		if fn.Origin() != nil {
+			f = fn.Origin()
+		}
+		var pkg *ssa.Package
+		for p := f; pkg == nil && p != nil; p = p.Parent() {
+			pkg = p.Pkg
+		}
+		if pkg == nil {
+			continue
+		}
+		m := have[pkg.Pkg.Path()]
+		if m == nil {
+			m = map[string]bool{}
+			have[pkg.Pkg.Path()] = m
+		}
+		m[funcKey(fn)] = true
+		m[funcKey(f)] = true
+	}
+	isIfaceMethod := func(p *packages.Package, key string) bool {
+		if !strings.HasPrefix(key, "(") {
+			return false
+		}
+		i := strings.Index(key, ").")
+		if i < 0 {
+			return false
+		}
+		tn, mn := strings.TrimPrefix(key[1:i], "*"), key[i+2:]
+		scopes := []*types.Scope{p.Types.Scope()}
+		for _, q := range pkgs {
+			scopes = append(scopes, q.Types.Scope())
+		}
+		for _, imp := range p.Types.Imports() {
+			scopes = append(scopes, imp.Scope())
+			for _, imp2 := range imp.Imports() {
+				scopes = append(scopes, imp2.Scope())
+			}
+		}
+		for _, sc := range scopes {
+			if o, ok := sc.Lookup(tn).(*types.TypeName); ok {
+				if it, ok := o.Type().Underlying().(*types.Interface); ok {
+					for k := 0; k < it.NumMethods(); k++ {
+						if it.Method(k).Name() == mn {
+							return true
+						}
+					}
+				}
+			}
+		}
+		return false
+	}
+	var out []string
+	for _, p := range pkgs {
+		c := x.contracts[p.PkgPath]
+		if c == nil || p.Types == nil {
+			continue
+		}
+		for key := range c.Funcs {
+			if have[p.PkgPath][key] || isIfaceMethod(p, key) {
+				continue
+			}
+			out = append(out, p.Types.Name()+"."+key)
+		}
+	}
+	sort.Strings(out)
+	return out
+}
